@@ -166,6 +166,8 @@ impl Date {
     #[inline]
     pub fn now() -> Result<Date> {
         let now = Local::now().naive_local();
+        #[cfg(feature = "verif-hooks")]
+        let now = crate::verif_hooks::apply(now);
         Ok(Date::new(
             SqlDate::try_from_ymd(now.year(), now.month(), now.day())?,
             Time::try_from_hms(now.hour(), now.minute(), now.second(), 0)?,
@@ -388,6 +390,8 @@ impl TryFrom<Time> for Date {
     #[inline]
     fn try_from(time: Time) -> Result<Self> {
         let now = Local::now().naive_local();
+        #[cfg(feature = "verif-hooks")]
+        let now = crate::verif_hooks::apply(now);
         Ok(Date::new(
             SqlDate::try_from_ymd(now.year(), now.month(), now.day())?,
             time,
